@@ -586,7 +586,9 @@ func (df *DataFrame) applyRowWise(fn FuncType) (any, error) {
 
 				// execute the custom function
 				res := fn(rowData)
+				applyGate(i, 0)
 				resultsChan <- rowResult{index: i, data: res}
+				applyGate(i, 1)
 
 			}
 		}()
